@@ -613,17 +613,30 @@ def r7_defaults_path(ctx):
     rep = ctx.rep
     KEY = 'default_runtime_state'
     # reader: RuntimeState(<value of self.config[KEY]>) in RUN
-    ctor = [(n, c) for (n, c, r) in rr.calls if r[0] == 'class' and r[1].qualname == RS]
+    ctor = [(rr.f, rr.rd, n, c) for (n, c, r) in rr.calls if r[0] == 'class' and r[1].qualname == RS]
+    if not ctor:
+        # the preparation of a run may be a method of its own (inlining bound 1)
+        for (n0, c0, r0) in rr.calls:
+            if r0[0] == 'repo' and len(r0[1]) == 1 and r0[1][0].cls is not None and r0[1][0].cls is rr.f.cls and not rr.in_loop(n0):
+                h = r0[1][0]
+                hg = ctx.cfg(h)
+                for hn in hg.nodes:
+                    if hn.dup:
+                        continue
+                    for c in node_calls(hn):
+                        rc = ctx.res.resolve_call(h, c)
+                        if rc[0] == 'class' and rc[1].qualname == RS:
+                            ctor.append((h, ctx.rd(h), hn, c))
     rep.floor('C04.R7', 'RuntimeState constructions in RUN', len(ctor), 1)
-    for (n, c) in ctor:
+    for (cf, crd, n, c) in ctor:
         a0 = c.args[0] if c.args else None
         ok = False
         if a0 is not None:
             exprs = [a0]
             if isinstance(a0, ast.Name):
-                exprs = [d.value for d in rr.rd.at(n, a0.id) if isinstance(d.value, ast.AST)]
+                exprs = [d.value for d in crd.at(n, a0.id) if isinstance(d.value, ast.AST)]
             ok = bool(exprs) and all(any(k == KEY and 'config' in b for (b, k) in keys_read(e)) for e in exprs)
-        rep.ob('C04.R7', ctx.loc(rr.f, c), ctx.src(c), ok,
+        rep.ob('C04.R7', ctx.loc(cf, c), ctx.src(c), ok,
                "run state is seeded from self.config['%s']" % KEY if ok else 'the run state is not seeded from the configured default directives', anchor=RUN)
     # RuntimeState.__init__ applies it to the persistent state
     fi = ctx.func(RS + '.__init__')
